@@ -7,7 +7,7 @@ class FakeSubprocess(object):
     PIPE = -1
 
     def __init__(self, script):
-        """script: callable(args, stdin, k) -> (returncode, stdout, stderr) or 'block' ; k = call index"""
+        """script: callable(args, stdin, k) -> (returncode, stdout, stderr) | 'block' | ('sleep', seconds, (rc, out, err)) ; k = call index"""
         self.script = script
         self.calls = []
 
@@ -28,5 +28,8 @@ class _P(object):
         r = self.sp.script(self.args, stdin, k)
         if r == 'block':
             gevent.event.Event().wait()
+        if isinstance(r, tuple) and r and r[0] == 'sleep':
+            gevent.sleep(r[1])                 # a slow but not stuck command: ('sleep', seconds, (rc, out, err))
+            r = r[2]
         self.returncode, out, err = r
         return out, err
